@@ -4,13 +4,16 @@ the value it returns, or that it is leaving by an exception.  Types are taken at
 import itertools
 
 
+_TOKENS = itertools.count()
+
+
 class Recorder:
     def __init__(self, typer):
         self.typer = typer              # value -> comparable type description
         self.calls = {}                 # token -> record
         self.finished = []              # records in order of completion
         self.values = {}                # (qualname, position) -> list of observed values (for C01)
-        self.n = itertools.count()
+        self.n = _TOKENS                # call tokens are unique across recorders (a generator may outlive the run it was started in)
         self.active = True
 
     def enter(_self, qualname, /, **params):
@@ -41,6 +44,17 @@ class Recorder:
         rec["exit"] = "raise"
         self.finished.append(rec)
         return exc
+
+
+    def closed(self, tok):
+        """the harness dropped this generator while it was suspended: CPython closes it (GeneratorExit at the yield).  Whether
+        that ends the frame by an exception (inside try / with / `yield from`) or leaves it parked at the yield is CPython's
+        business; the call did not return"""
+        rec = self.calls.get(tok)
+        if rec is not None and rec["exit"] is None:
+            rec["exit"] = "closed"
+            self.finished.append(rec)
+        return None
 
 
 REC = None
